@@ -270,7 +270,7 @@ func safeCheck(p *Prop, c Case, out []string) (f *Failure) {
 func Main(args []string) int {
 	if len(args) < 1 {
 		fmt.Fprintln(os.Stderr, "usage: vcheck <Cxx> [quick|thorough] [--replay file]")
-		return 2
+		return 64
 	}
 	if args[0] == "--bless" {
 		if err := Bless(VerifDir(), RepoDir()); err != nil {
@@ -284,7 +284,7 @@ func Main(args []string) int {
 	p := Lookup(id)
 	if p == nil {
 		fmt.Fprintf(os.Stderr, "vcheck: unknown property %s (have %v)\n", id, IDs())
-		return 2
+		return 64
 	}
 	tier := os.Getenv("VERIF_TIER")
 	replay := ""
